@@ -18,6 +18,8 @@
 //	c07.watch_cond_compiler wazevo/call_engine.go callWithStack               condition under which the call's context gets a watcher
 //	c07.watch_cond_interp   interpreter/interpreter.go callEngine.call        the same
 //	c11.host_module_id      wasm/host.go NewHostModule                        the expression the host module's ID is derived from
+//	c05.fcmp_branch_order   amd64/machine.go LowerConditionalBranch            order of the m.insert calls of the two-jump form; the jumps of its `and` and `or` variants
+//	c05.fcmp_eq_ne_flags    amd64/machine.go lowerFcmpToFlags                  the flag pairs of FloatCmpCondEqual / NotEqual
 //	c09.compiled_fields     wazevo/engine.go compiledModule, interpreter compiledFunction   field names of what is shared by all instances
 package main
 
@@ -251,6 +253,70 @@ func main() {
 			die("NewHostModule: %d calls of AssignModuleID", len(ids))
 		}
 		add("c11.host_module_id", ids[0])
+	}
+	{
+		fd := fn(*repo, "internal/engine/wazevo/backend/isa/amd64/machine.go", "LowerConditionalBranch", "machine")
+		var blk *ast.BlockStmt
+		ast.Inspect(fd.Body, func(n ast.Node) bool {
+			b, ok := n.(*ast.BlockStmt)
+			if !ok {
+				return true
+			}
+			for _, st := range b.List {
+				if as, ok := st.(*ast.AssignStmt); ok && strings.Contains(src(as), "m.allocateBrTarget()") {
+					blk = b
+				}
+			}
+			return true
+		})
+		if blk == nil {
+			die("LowerConditionalBranch: no block allocating a branch target")
+		}
+		var order []string
+		var variants []string
+		for _, st := range blk.List {
+			if es, ok := st.(*ast.ExprStmt); ok {
+				if c, ok := es.X.(*ast.CallExpr); ok && src(c.Fun) == "m.insert" && len(c.Args) == 1 {
+					order = append(order, src(c.Args[0]))
+					continue
+				}
+			}
+			if ifs, ok := st.(*ast.IfStmt); ok && src(ifs.Cond) == "and" {
+				var a, o []string
+				for _, x := range ifs.Body.List {
+					a = append(a, src(x))
+				}
+				if eb, ok := ifs.Else.(*ast.BlockStmt); ok {
+					for _, x := range eb.List {
+						o = append(o, src(x))
+					}
+				}
+				variants = append(variants, "and: "+strings.Join(a, " ; ")+" | or: "+strings.Join(o, " ; "))
+			}
+		}
+		add("c05.fcmp_branch_order", strings.Join(order, " ")+" || "+strings.Join(variants, " || "))
+	}
+	{
+		fd := fn(*repo, "internal/engine/wazevo/backend/isa/amd64/machine.go", "lowerFcmpToFlags", "machine")
+		var rows []string
+		ast.Inspect(fd.Body, func(n ast.Node) bool {
+			cc, ok := n.(*ast.CaseClause)
+			if !ok || len(cc.List) != 1 {
+				return true
+			}
+			if k := src(cc.List[0]); k == "ssa.FloatCmpCondEqual" || k == "ssa.FloatCmpCondNotEqual" {
+				var b []string
+				for _, x := range cc.Body {
+					b = append(b, src(x))
+				}
+				rows = append(rows, k+": "+strings.Join(b, " ; "))
+			}
+			return true
+		})
+		if len(rows) != 2 {
+			die("lowerFcmpToFlags: %d of the two equality cases found", len(rows))
+		}
+		add("c05.fcmp_eq_ne_flags", strings.Join(rows, " || "))
 	}
 	add("c09.compiled_fields", "wazevo.compiledModule: "+structFields(*repo, "internal/engine/wazevo/engine.go", "compiledModule")+
 		" ;; interpreter.compiledFunction: "+structFields(*repo, "internal/engine/interpreter/interpreter.go", "compiledFunction"))
